@@ -388,7 +388,26 @@ def box_oracle(case):
     cats = np.unique(by) if nrow else []
     if len(cats) >= 2:
         v = cols[0]
-        stb = boxplot.Boxplot(pd.Series(v.copy()), by=pd.Series(by),
+        # values and categories as two series sharing an index: the default
+        # one, a permuted one, dates, strings (two columns of a frame that
+        # was sorted or filtered), or the categories as a plain array / list
+        how = ["default", "permuted", "dates", "strings", "array",
+               "list"][case.get("draw", 0) % 6 if nrow > 1 else 0]
+        labels.append(f"by-index:{how}")
+        if how == "permuted":
+            ix = pd.Index(((np.arange(nrow) * 7 + 3) % nrow)
+                          if math.gcd(7, nrow) == 1 else
+                          np.arange(nrow)[::-1])
+        elif how == "dates":
+            ix = pd.date_range("2001-03-01", periods=nrow, freq="D")
+        elif how == "strings":
+            ix = pd.Index([f"r{(k * 5) % 97}_{k}" for k in range(nrow)])
+        else:
+            ix = pd.RangeIndex(nrow)
+        ser = pd.Series(v.copy(), index=ix)
+        byarg = by.copy() if how == "array" else by.tolist() \
+            if how == "list" else pd.Series(by, index=ix)
+        stb = boxplot.Boxplot(ser, by=byarg,
                               box_coverage=bc, whiskers_coverage=wc).stats
         for cat in cats:
             if cat not in stb.columns:
